@@ -7,7 +7,7 @@ RULE = ("(molecule, acyclic single bond between heavy atoms) pairs from corpus c
         "generated family (esters, amides, ethers, thioethers, phosphonates, boronic acids, N-N / N-O / S-halogen / O-halogen bonds): "
         "the two fragments are built by deleting the other side's atoms (index map under the generator's control, radicals closed with "
         "the repository's own add_hydrogens_to_radicals; for every other cut the fragments are handed over as SMILES strings with translated boundary indices, as build_compounds does, first in a merge with a bond and then alone; molecules that already carry a radical are skipped, the closing step would saturate it) and handed to merge() as two compounds with one boundary each [mode A], and "
-        "each fragment alone with its boundary [mode B: completion by an expansion rule], and the two fragments together with spectator compounds (water, benzene, triethylamine, dichloromethane; up to three kept spectators, adjacent and apart) in every position of the set [mode C].  Oracle (RDKit): mode A reconstructs the "
+        "each fragment alone with its boundary [mode B: completion by an expansion rule], the core left after two cuts as one fragment with two boundaries [mode D] and a fragment next to an alcohol spectator [mode E], and the two fragments together with spectator compounds (water, benzene, triethylamine, dichloromethane; up to three kept spectators, adjacent and apart) in every position of the set [mode C].  Oracle (RDKit): mode A reconstructs the "
         "original (canonical SMILES ignoring stereo) unless a restriction rule (no bond) is reported; in every mode the product is a valid "
         "molecule, carbons are conserved, heavy atoms = fragments + compounds named by the reported expansion rules.  Correspondence: "
         "the merged molecule's atom list and bond multiset vs Model/Merge.merge_two_mols, and the reported merge / expansion rule vs "
@@ -85,6 +85,8 @@ def frag(m, keep, b):
     except Exception:
         return None, None
     fm = MoleculeCurator.add_hydrogens_to_radicals(fm)
+    if isinstance(b, (list, tuple)):
+        return fm, [idx[x] for x in b]
     return fm, idx[b]
 
 
@@ -254,6 +256,63 @@ def run(ctx):
                                 ctx.fail("original-not-reconstructed", case, {"rules": names, "expected": exp, "got": nostereo(res.mol)})
                     except Exception as e:
                         ctx.fail("merge-raised", case, {"error": "%s: %s" % (type(e).__name__, str(e)[:160])})
+                # ---- mode D (once per molecule): the core left after cutting TWO bonds, one fragment with two boundaries, both completed by
+                # expansion; and mode E: one open fragment next to an alcohol spectator (the compound rule that lets the alcohol react)
+                if b is bonds[0] and len(bonds) >= 2:
+                    b2 = bonds[1]
+                    u2, v2 = b2.GetBeginAtomIdx(), b2.GetEndAtomIdx()
+                    A2, B2 = sides(m, u2, v2)
+                    for keep1, in1, out1 in ((A, u, v), (B, v, u)):
+                        S2 = A2 if in1 in A2 else B2
+                        in2, out2 = (u2, v2) if u2 in S2 else (v2, u2)
+                        core = sorted(set(keep1) & set(S2))
+                        if in1 not in core or in2 not in core or in1 == in2 or len(core) < 2:
+                            continue
+                        fc, jj = frag(m, core, [in1, in2])
+                        if fc is None:
+                            continue
+                        j1, j2 = jj
+                        case = {"smiles": smi, "bonds": [[u, v], [u2, v2]], "mode": "core-with-two-boundaries", "fragment": Chem.MolToSmiles(fc)}
+                        ctx.evaluations += 1
+                        try:
+                            cs = CompoundSet()
+                            cc = cs.add_compound(Chem.Mol(fc), src_mol=m)
+                            cc.add_boundary(j1, neighbor_index=out1); cc.add_boundary(j2, neighbor_index=out2)
+                            res = mg.merge(cs)
+                            names = [r.name for r in res.rules]
+                            ctx.count("two_boundaries", "|".join(names) or "(none)")
+                            ctx.nontrivial.add((smi, u, v, u2, v2, "D"))
+                            want = collections.Counter(heavy(fc))
+                            for n in names:
+                                if n in expand_smiles:
+                                    want.update(heavy(Chem.MolFromSmiles(expand_smiles[n])))
+                            if dict(want) != heavy(res.mol):
+                                ctx.fail("result-not-explained-by-reported-rules", case, {"rules": names, "expected_heavy_atoms": dict(want), "got": heavy(res.mol)})
+                        except Exception as e:
+                            ctx.fail("merge-raised", case, {"error": "%s: %s" % (type(e).__name__, str(e)[:160])})
+                        break
+                    for (f1, i1, n1) in ((fa, ia, v), (fb, ib, u)):
+                        for first in (True, False):
+                            case = {"smiles": smi, "bond": [u, v], "mode": "fragment+alcohol", "fragment": Chem.MolToSmiles(f1), "alcohol_first": first}
+                            ctx.evaluations += 1
+                            try:
+                                cs = CompoundSet()
+                                if first:
+                                    cs.add_compound("CCO", src_mol="CCO")
+                                c1 = cs.add_compound(Chem.Mol(f1), src_mol=m); c1.add_boundary(i1, neighbor_index=n1)
+                                if not first:
+                                    cs.add_compound("CCO", src_mol="CCO")
+                                res = mg.merge(cs)
+                                names = [r.name for r in res.rules]
+                                ctx.count("alcohol", "|".join(names) or "(none)")
+                                want = collections.Counter(heavy(f1)); want.update(heavy(Chem.MolFromSmiles("CCO")))
+                                for n in names:
+                                    if n in expand_smiles:
+                                        want.update(heavy(Chem.MolFromSmiles(expand_smiles[n])))
+                                if dict(want) != heavy(res.mol):
+                                    ctx.fail("result-not-explained-by-reported-rules", case, {"rules": names, "expected_heavy_atoms": dict(want), "got": heavy(res.mol)})
+                            except Exception as e:
+                                ctx.fail("merge-raised", case, {"error": "%s: %s" % (type(e).__name__, str(e)[:160])})
                 # ---- mode B: one open fragment, completed by expansion
                 for (f1, i1, n1) in ((fa, ia, v), (fb, ib, u)):
                     case = {"smiles": smi, "bond": [u, v], "mode": "single-fragment", "fragment": Chem.MolToSmiles(f1)}
